@@ -31,7 +31,7 @@ PROPS["C01"] = {
     "bounds": "leaf signatures y b n q i u x t d (every value), s o (text of 0..=3 ASCII bytes) at every message offset 0..15 and both byte orders, "
               "through the public to_writer_for_signature / serialized_size; padding kernel for every usize and alignment 1/2/4/8",
     "outside": "container signatures (arrays, dicts, structs, variants) and file descriptors through the whole API: CBMC does not fit them in 20 GB "
-               "(DESIGN.md §9); strings longer than 3 bytes; non-ASCII text",
+               "(DESIGN.md §9); strings longer than 3 bytes; 3- and 4-byte UTF-8 scalars",
     "assumptions": [FMT_STUB, CLOSE_STUB, FORGET, RECB,
                     "reference marshaller kani/zv/src/refmodel/dbus.rs is the specification (validated natively against spec examples and the real encoder on every run)"],
     "level_text": "Bounded model checking of the real serializer compiled by Kani: for every value of each leaf type, every message offset 0..15 and both byte "
@@ -39,12 +39,15 @@ PROPS["C01"] = {
     "level_note": "bounded to leaf signatures (containers are outside the claim, see evidence.outside_claim); trusts Kani/CBMC, the stubs listed in assumptions and the reference marshaller",
     "groups": [
         dict(ZV, harnesses=
-             [H("c01_enc_%s" % t, "quick" if t in "ut" else "thorough", timeout=1200, cost=90, recursion_bounds=REC1, bounds=LEAF_BOUNDS,
+             [H("c01_enc_%s" % t, "quick" if t in "ut" else "thorough", timeout=2400, cost=90, recursion_bounds=REC1, bounds=LEAF_BOUNDS,
                 asserts="to_writer_for_signature bytes and length == independent spec marshaller") for t in "ybnqiuxtd"] +
              [H("c01_enc_%s" % t, "quick" if t == "s" else "thorough", timeout=1500, cost=150, recursion_bounds=REC1,
                 bounds="text 0..=3 symbolic ASCII bytes; offset 0..15; byte order symbolic; unwind 9",
                 asserts="bytes and length == spec marshaller (u32 length, text, NUL)") for t in "so"] +
-             [H("c01_size_%s" % t, "quick" if t in "u" else "thorough", timeout=900, cost=60, recursion_bounds=REC1, bounds=LEAF_BOUNDS,
+             [H("c01_enc_s_utf8_%s" % e, "quick" if e == "le" else "thorough", timeout=1500, cost=120, recursion_bounds=REC1,
+                bounds="text = one symbolic 2-byte UTF-8 scalar (U+0080..U+07FF) optionally followed by an ASCII byte; %s-endian cell" % e,
+                asserts="bytes and length == spec marshaller (the length prefix counts bytes)") for e in ("le", "be")] +
+             [H("c01_size_%s" % t, "quick" if t in "u" else "thorough", timeout=1800, cost=60, recursion_bounds=REC1, bounds=LEAF_BOUNDS,
                 asserts="serialized_size().size() == bytes the rules prescribe; num_fds == 0") for t in "yqutb"] +
              [H("c01_enc_a%s_p%d_k%d" % (t, p, k), "quick" if (t, p, k) in (("t", 4, 1), ("y", 3, 2)) else "thorough", timeout=2400, cost=400, recursion_bounds=REC1, mem_gb=16,
                 bounds="array a%s of %d symbolic element(s) at message offset %d, byte order symbolic" % (t, k, p),
@@ -77,6 +80,9 @@ PROPS["C02"] = {
              [H("c02_rt_dbus_%s" % t, "quick" if t in "ud" else "thorough", timeout=1500, cost=200, recursion_bounds=REC1,
                 bounds="value symbolic; offset 0..7; byte order symbolic; 16-byte buffer",
                 asserts="decode(encode(v)) == v (bitwise for f64) and consumed == encoded length") for t in "ybnqiuxtd"] +
+             [H("c02_rt_dbus_%s" % t, "quick" if t == "f32" else "thorough", timeout=1500, cost=200, recursion_bounds=REC1,
+                bounds="Rust %s (every value incl. MIN/MAX, infinities, NaN) encoded under its D-Bus stand-in type; offset 0..7; byte order symbolic" % t,
+                asserts="decode(encode(v)) == v (NaN stays NaN) and consumed == encoded length") for t in ("f32", "i8")] +
              [H("c02_rt_dbus_s_n%d_%s" % (n, e), "quick" if (n, e) == (3, "be") else "thorough", timeout=1800, cost=100, recursion_bounds=REC1, mem_gb=16,
                 bounds="text of exactly %d symbolic ASCII byte(s); message offset %d; %s-endian (concrete per cell); from_utf8/memchr byte-loop stubs" % (n, {0: 0, 1: 3, 3: 1}[n], e),
                 asserts="round trip text and consumed length") for n in (0, 1, 3) for e in ("le", "be")]),
@@ -99,7 +105,7 @@ PROPS["C03"] = {
     "level_note": "bounded to leaf signatures; core::str::from_utf8 and memchr are replaced by byte-loop specifications in the text harnesses (trusted equivalence, checked natively on every run)",
     "groups": [
         dict(ZV, harnesses=
-             [H("c03_dec_%s" % t, "quick" if t in "ub" else "thorough", timeout=900, cost=60, recursion_bounds=REC1,
+             [H("c03_dec_%s" % t, "quick" if t in "ub" else "thorough", timeout=1800, cost=60, recursion_bounds=REC1,
                 bounds="16 symbolic bytes, length 0..=16 symbolic, offset 0..7, byte order symbolic, unwind 9",
                 asserts="Ok iff the spec reader accepts; equal value and consumed count") for t in "ynqiuxtdb"] +
              [H("c03_dec_%s_p%d" % (t, p), "quick" if (t, p) in (("s", 0), ("s", 3), ("o", 1)) else "thorough", timeout=1500, cost=200, recursion_bounds=REC1, mem_gb=14,
@@ -248,6 +254,9 @@ PROPS["C10"] = {
                bounds="concrete valid content, length symbolic in {255, 256}, unwind 262",
                asserts="accepted iff length <= 255") for n in ["member", "property"]] +
 
+            [H("c10_unique_dbus_suffix", "thorough", timeout=2400, cost=300, mem_gb=16,
+               bounds="'org.freedesktop.DBus' followed by 0..=2 symbolic ASCII bytes (20..=22 bytes)",
+               asserts="UniqueName accepts exactly the literal bus name among these")] +
             [H("c10_%s_value4" % n, "quick", timeout=900, cost=70, 
                bounds="Value::Str of [u8;4] symbolic ASCII, len 0..=4, unwind 7",
                asserts="TryFrom<Value>.is_ok() == spec recogniser") for n in _names if n != "objpath"],
